@@ -331,6 +331,7 @@ class RealBackend(object):
         self.hash_vals = pr.get("hashes", {})
         self.nhash = 0
         self.carried = None
+        self.flush_hook = None
         self.root = None
         self.root_exc = None
         self.root_val = None
@@ -1030,6 +1031,8 @@ class RealBackend(object):
             self.viol("C11", "switch-before-flush", "batch %s still the active batch while its flush body runs" % batch.bid)
         if len(self.extents) > 0:
             self.probes["flush_in_nested_wait"] += 1
+        if self.flush_hook is not None:
+            self.flush_hook(batch)
         plan = self.flush_faults.get("%d#%d" % (kind, ordn))
         items = list(batch.items)
         for idx, it in enumerate(items):
